@@ -1034,6 +1034,42 @@ def check_translate_execution(text, H, model_exe):
         if rk(k) is None:
             dis.append({"layer": "L4-recursion-run", "text": text, "what": "the operands-first relation of the run has a cycle (no rank: Graph.ok fails)"})
             return st, dis
+    # Graph.wok: a weak rank over all edges under which the pairs that do not look again lie strictly above their operands exists
+    # iff no such pair shares a strongly connected component (of the graph with the unfolding edges) with one of its operands
+    full = {k: list(v) for k, v in edges.items()}
+    for k, kd in enumerate(kinds):
+        if isinstance(kd, tuple) and kd[0] == "early":
+            full.setdefault(k, []).append(kd[1])
+    order, seen = [], set()
+    def dfs1(u):
+        seen.add(u)
+        for v in full.get(u, ()):
+            if v not in seen:
+                dfs1(v)
+        order.append(u)
+    for k in range(n):
+        if k not in seen:
+            dfs1(k)
+    rev = {}
+    for u, vs in full.items():
+        for v in vs:
+            rev.setdefault(v, []).append(u)
+    comp = {}
+    def dfs2(u, c):
+        comp[u] = c
+        for v in rev.get(u, ()):
+            if v not in comp:
+                dfs2(v, c)
+    for u in reversed(order):
+        if u not in comp:
+            dfs2(u, u)
+    for k, kd in enumerate(kinds):
+        if isinstance(kd, tuple) and ((kd[0] == "op" and kd[1] == 0) or kd[0] == "op3"):
+            ops_ = kd[2:] if kd[0] == "op" else kd[1:]
+            if any(comp[o] == comp[k] for o in ops_):
+                dis.append({"layer": "L4-recursion-run", "text": text, "what": "a temporal connective pair lies on a cycle with one of its operands (Graph.wok fails)"})
+                return st, dis
+    st["components_with_cycle"] = len(set(c for c in comp.values() if sum(1 for x in comp.values() if x == c) > 1))
     line = tl.sexp(("trrec", 1, tuple(kinds), tuple(rank[k] for k in range(n)), tuple(roots)))
     out = model_exe.batch([line])[0].strip()
     want = "ok ({}) 0".format(" ".join(str(x) for x in real_log))
